@@ -358,25 +358,41 @@ def _table_global(mod, ptrname):
 
 _RESULT = {}
 
+def _pickle_path(ctx):
+    import os, hashlib
+    src = b''.join(open(os.path.join(os.path.dirname(os.path.abspath(__file__)), f), 'rb').read() for f in ('symex.py', 'mumodel.py', 'util.py', 'ir.py', 'cfg.py'))
+    return os.path.join(ctx.facts, 'mueng-%s.pkl' % hashlib.sha256(src).hexdigest()[:12])
+
+def try_load(ctx):
+    """Load the cached interpreter result (keyed by the IR facts directory = hash of the tree, and by the engine sources) together with the
+    module object it refers to.  Called by Ctx.mod('C') BEFORE any module is handed out, so that the records of the engine and the rules
+    always talk about the very same instruction objects (identity comparisons are used by several rules)."""
+    import os, pickle, sys
+    key = (ctx.facts, MuEngine.__name__)
+    if key in _RESULT:
+        return _RESULT[key][0].mod
+    pk = _pickle_path(ctx)
+    if not os.path.exists(pk):
+        return None
+    sys.setrecursionlimit(200000)
+    try:
+        with open(pk, 'rb') as f:
+            eng, runs = pickle.load(f)
+    except Exception:
+        return None
+    _RESULT[key] = (eng, runs)
+    return eng.mod
+
 def analyse(ctx, engine_cls=MuEngine):
     """run every entry; returns (engine, list of (entry, exits))"""
     key = (ctx.facts, engine_cls.__name__)
+    mod = ctx.mod('C')          # loads the cached result, if any, and pins the module object
     if key in _RESULT:
+        if _RESULT[key][0].mod is not mod:
+            raise AnalysisBroken('internal: cached interpreter result refers to a different module object')
         return _RESULT[key]
-    import os, pickle, sys, hashlib
+    import os, pickle, sys
     sys.setrecursionlimit(200000)
-    src = b''.join(open(os.path.join(os.path.dirname(os.path.abspath(__file__)), f), 'rb').read() for f in ('symex.py', 'mumodel.py', 'util.py', 'ir.py', 'cfg.py'))
-    pk = os.path.join(ctx.facts, 'mueng-%s.pkl' % hashlib.sha256(src).hexdigest()[:12])
-    if os.path.exists(pk) and engine_cls is MuEngine:
-        try:
-            with open(pk, 'rb') as f:
-                eng, runs = pickle.load(f)
-            ctx._mods['C'] = eng.mod
-            _RESULT[key] = (eng, runs)
-            return eng, runs
-        except Exception:
-            pass
-    mod = ctx.mod('C')
     K = ctx.probe
     eng = engine_cls(mod, K)
     ents, missing = entries(mod, K)
@@ -389,6 +405,7 @@ def analyse(ctx, engine_cls=MuEngine):
     _RESULT[key] = (eng, runs)
     if engine_cls is MuEngine:
         try:
+            pk = _pickle_path(ctx)
             tmp = pk + '.tmp.%d' % os.getpid()
             with open(tmp, 'wb') as f:
                 pickle.dump((eng, runs), f, protocol=pickle.HIGHEST_PROTOCOL)
